@@ -1,5 +1,764 @@
-//! C13 - monitor not built yet.
+//! C13 - What validation accepts, storage returns unchanged; nothing invalid gets in.
+//! Monitors (DESIGN.md C13): type-directed (type, value) pairs through every schema-level write
+//! path and the stored form (valid / single invalid mutation / grey zone), complexity budget
+//! boundaries, derive-macro struct family round trips, the same documents through
+//! Collection add/get/update with compression {0,3} x cache {on,off} and across reopen, schema
+//! upgrade chains (schema level and through a collection), a schema-only workload under Miri.
+
+use anda_db::collection::{Collection, CollectionConfig};
+use anda_db::database::{AndaDB, DBConfig};
+use anda_db::storage::StorageConfig;
+use anda_db_schema::{Document, FieldEntry, FieldKey, Schema};
+use object_store::memory::InMemory;
+use std::collections::BTreeMap;
+use std::sync::Arc;
+use v_schema::generate::*;
+use v_schema::oracle::*;
+use v_schema::typed::Typed;
+use vcore::run::block_on;
+use vcore::{Rng, Run, Stats, json};
+
+const CONFIGS: [(i32, bool); 4] = [(0, true), (0, false), (3, true), (3, false)];
+
+fn cfg_label(c: (i32, bool)) -> String {
+    format!("compress{}_cache_{}", c.0, if c.1 { "on" } else { "off" })
+}
+
+fn db_config(c: (i32, bool)) -> DBConfig {
+    DBConfig {
+        name: "c13db".to_string(),
+        description: "C13".to_string(),
+        storage: StorageConfig {
+            compress_level: c.0,
+            cache_max_capacity: if c.1 { 10_000 } else { 0 },
+            ..Default::default()
+        },
+        lock: None,
+    }
+}
+
+fn coll_config() -> CollectionConfig {
+    CollectionConfig { name: "docs".to_string(), description: "C13 documents".to_string() }
+}
+
+type Expected = BTreeMap<String, Fv>;
+
+fn compare_doc(got: &Document, id: u64, exp: &Expected, schema: &Schema, strict: bool) -> Result<(), String> {
+    if got.id() != id {
+        return Err(format!("id {} != {}", got.id(), id));
+    }
+    for f in schema.iter() {
+        if f.name() == "_id" {
+            continue;
+        }
+        match (got.get_field(f.name()), exp.get(f.name())) {
+            (None, None) => {}
+            (Some(a), Some(b)) => {
+                let same = if strict { fv_eq(a, b) } else { loose_eq(a, b) };
+                if !same {
+                    return Err(format!("field {}: got {} expected {}", f.name(), brief(a, 1200), brief(b, 1200)));
+                }
+            }
+            (a, b) => return Err(format!("field {}: got {} expected {}", f.name(), brief(&a, 600), brief(&b, 600))),
+        }
+    }
+    Ok(())
+}
+
+/// The type a hostile writer would declare to get `w` into a Document at all.
+fn natural_type(w: &Fv) -> Option<Ft> {
+    Some(match w {
+        Fv::Bool(_) => Ft::Bool,
+        Fv::I64(_) => Ft::I64,
+        Fv::U64(_) => Ft::U64,
+        Fv::F64(f) if !f.is_nan() => Ft::F64,
+        Fv::F32(f) if !f.is_nan() => Ft::F32,
+        Fv::F64(_) | Fv::F32(_) => return None,
+        Fv::Bytes(_) => Ft::Bytes,
+        Fv::Text(_) => Ft::Text,
+        Fv::Json(_) => Ft::Json,
+        Fv::Vector(_) => Ft::Vector,
+        Fv::Array(_) => Ft::Array(vec![]),
+        Fv::Map(_) => Ft::Map(BTreeMap::new()),
+        Fv::Null => Ft::Option(Box::new(Ft::Bool)),
+    })
+}
+
+struct Sc<'a> {
+    label: String,
+    fields: &'a [(String, Ft)],
+    history: Vec<String>,
+}
+
+impl Sc<'_> {
+    fn ctx(&self) -> serde_json::Value {
+        json!({"config": self.label,
+               "schema": self.fields.iter().map(|(n, t)| format!("{n}: {}", brief(t, 600))).collect::<Vec<_>>(),
+               "history": self.history})
+    }
+}
+
+async fn storage_case(case: u64, rng: &mut Rng, st: &mut Stats) {
+    let cfg = CONFIGS[(case % 4) as usize];
+    let label = cfg_label(cfg);
+    let nf = 1 + rng.usize(4);
+    let fields: Vec<(String, Ft)> = (0..nf)
+        .map(|i| {
+            let d = *rng.pick(&[0usize, 1, 2, 2, 3, 3]);
+            (format!("f{i}"), gen_type(rng, d))
+        })
+        .collect();
+    for (_, t) in &fields {
+        walk_type(t, &mut |t| st.count(&format!("storage_ctor:{}", ctor_name(t))));
+    }
+    let schema = match build_schema(&fields, 1) {
+        Ok(s) => s,
+        Err(e) => return st.inconclusive(format!("harness: schema: {e}")),
+    };
+    let store = Arc::new(InMemory::new());
+    let db = match AndaDB::create(store.clone(), db_config(cfg)).await {
+        Ok(d) => d,
+        Err(e) => return st.inconclusive(format!("harness: db create: {e:?}")),
+    };
+    let mut coll: Arc<Collection> = match db.create_collection(schema.clone(), coll_config(), async |_| Ok(())).await {
+        Ok(c) => c,
+        Err(e) => return st.inconclusive(format!("harness: create_collection: {e:?}")),
+    };
+    let mut schema = coll.schema();
+    let mut sc = Sc { label: label.clone(), fields: &fields, history: vec![] };
+    let mut model: BTreeMap<u64, Expected> = BTreeMap::new();
+
+    macro_rules! check_get {
+        ($id:expr, $what:expr) => {{
+            let id: u64 = $id;
+            st.count(&format!("storage_get:{label}"));
+            match coll.get(id).await {
+                Err(e) => {
+                    st.violation(
+                        format!("{BRICK}/collection_get"),
+                        json!({"id": id, "when": $what, "error": format!("{e:?}"),
+                            "expected": brief(&model.get(&id), 2500), "context": sc.ctx()}),
+                    );
+                    false
+                }
+                Ok(d) => match compare_doc(&d, id, &model[&id], &schema, true) {
+                    Ok(()) => {
+                        st.count(&format!("storage_roundtrip:{label}"));
+                        true
+                    }
+                    Err(e) => {
+                        st.violation(
+                            "C13/storage/get_differs_from_written",
+                            json!({"id": id, "when": $what, "difference": e, "context": sc.ctx()}),
+                        );
+                        false
+                    }
+                },
+            }
+        }};
+    }
+
+    // adds
+    let n_docs = 2 + rng.usize(4);
+    for _ in 0..n_docs {
+        st.eval();
+        let mut doc = Document::new(schema.clone());
+        doc.set_id(0); // assigned by the collection
+        let mut exp = Expected::new();
+        let mut g = G { rng: &mut *rng, boundary: false };
+        for (name, ft) in &fields {
+            if matches!(ft, Ft::Option(_)) && g.rng.chance(1, 4) {
+                continue;
+            }
+            let v = gen_valid(ft, &mut g, false);
+            if let Err(e) = doc.set_field(name, v.clone()) {
+                st.violation(
+                    "C13/valid_rejected/set_field",
+                    json!({"monitor": "storage", "type": brief(ft, 800), "value": brief(&v, 1500), "error": format!("{e:?}")}),
+                );
+                return;
+            }
+            exp.insert(name.clone(), v);
+        }
+        sc.history.push(format!("add {}", brief(&exp, 500)));
+        match coll.add(doc).await {
+            Ok(id) => {
+                model.insert(id, exp);
+                st.count("storage_adds");
+                if !check_get!(id, "after add") {
+                    return;
+                }
+            }
+            Err(e) => {
+                st.violation(
+                    "C13/valid_rejected/collection_add",
+                    json!({"error": format!("{e:?}"), "document": brief(&exp, 2500), "context": sc.ctx()}),
+                );
+                return;
+            }
+        }
+    }
+    let ids: Vec<u64> = model.keys().copied().collect();
+
+    // updates with valid values, invalid values, grey values; invalid adds
+    let n_ops = 4 + rng.usize(5);
+    for _ in 0..n_ops {
+        st.eval();
+        let id = *rng.pick(&ids);
+        let (name, ft) = rng.pick(&fields).clone();
+        let mut g = G { rng: &mut *rng, boundary: false };
+        let v = gen_valid(&ft, &mut g, false);
+        match g.rng.below(10) {
+            0..=3 => {
+                // valid update of 1..n fields
+                let mut upd = BTreeMap::from([(name.clone(), v.clone())]);
+                if g.rng.bool() {
+                    let (n2, t2) = g.rng.pick(&fields).clone();
+                    let v2 = gen_valid(&t2, &mut g, false);
+                    upd.insert(n2, v2);
+                }
+                sc.history.push(format!("update {id} {}", brief(&upd, 500)));
+                match coll.update(id, upd.clone()).await {
+                    Ok(returned) => {
+                        let e = model.get_mut(&id).unwrap();
+                        for (k, v) in upd {
+                            e.insert(k, v);
+                        }
+                        st.count("storage_updates");
+                        if let Err(d) = compare_doc(&returned, id, &model[&id], &schema, true) {
+                            st.violation(
+                                "C13/storage/update_result_differs_from_written",
+                                json!({"id": id, "difference": d, "context": sc.ctx()}),
+                            );
+                            return;
+                        }
+                        if !check_get!(id, "after update") {
+                            return;
+                        }
+                    }
+                    Err(e) => {
+                        st.violation(
+                            "C13/valid_rejected/collection_update",
+                            json!({"error": format!("{e:?}"), "update": brief(&upd, 2500), "context": sc.ctx()}),
+                        );
+                        return;
+                    }
+                }
+            }
+            4..=6 => {
+                let Some((w, class, _)) = mutate_invalid(&ft, &v, &mut g) else { continue };
+                if g.rng.bool() {
+                    // rejected update: the stored document stays what it was
+                    sc.history.push(format!("invalid update {id} {name} [{class}] {}", brief(&w, 300)));
+                    st.count(&format!("storage_invalid:{class}"));
+                    match coll.update(id, BTreeMap::from([(name.clone(), w.clone())])).await {
+                        Err(_) => st.count("invalid_rejected:collection_update"),
+                        Ok(_) => {
+                            st.violation(
+                                format!("C13/invalid_accepted/collection_update/{class}"),
+                                json!({"field": name, "type": brief(&ft, 800), "value": brief(&w, 1500), "context": sc.ctx()}),
+                            );
+                            // did it brick the document?
+                            if let Err(e) = coll.get(id).await {
+                                st.violation(
+                                    format!("{BRICK}/collection_get"),
+                                    json!({"id": id, "after": "accepted invalid update", "error": format!("{e:?}"), "context": sc.ctx()}),
+                                );
+                            }
+                            return;
+                        }
+                    }
+                    st.count("oracle_rejected_write_leaves_old_document");
+                    if !check_get!(id, "after rejected update") {
+                        return;
+                    }
+                } else {
+                    // rejected add: a Document built under a lax foreign schema with the same
+                    // field layout, handed to this collection
+                    let Some(nt) = natural_type(&w) else {
+                        st.count("invalid_add_skipped_no_carrier_type");
+                        continue;
+                    };
+                    let lax_fields: Vec<(String, Ft)> = fields
+                        .iter()
+                        .map(|(n, t)| if *n == name { (n.clone(), nt.clone()) } else { (n.clone(), t.clone()) })
+                        .collect();
+                    let Ok(lax) = build_schema(&lax_fields, 1) else { continue };
+                    let lax = Arc::new(lax);
+                    let mut doc = Document::new(lax.clone());
+                    doc.set_id(0);
+                    let mut ok = doc.set_field(&name, w.clone()).is_ok();
+                    for (n, t) in &fields {
+                        if *n != name && !matches!(t, Ft::Option(_)) {
+                            let x = gen_valid(t, &mut g, false);
+                            ok &= doc.set_field(n, x).is_ok();
+                        }
+                    }
+                    if !ok {
+                        st.count("invalid_add_skipped_carrier_refused");
+                        continue;
+                    }
+                    let len_before = coll.len();
+                    sc.history.push(format!("invalid add {name} [{class}] {}", brief(&w, 300)));
+                    st.count(&format!("storage_invalid:{class}"));
+                    match coll.add(doc).await {
+                        Err(_) => {
+                            st.count("invalid_rejected:collection_add");
+                            if coll.len() != len_before {
+                                st.violation(
+                                    "C13/storage/rejected_add_changed_collection",
+                                    json!({"len_before": len_before, "len_after": coll.len(), "context": sc.ctx()}),
+                                );
+                                return;
+                            }
+                        }
+                        Ok(new_id) => {
+                            st.violation(
+                                format!("C13/invalid_accepted/collection_add/{class}"),
+                                json!({"field": name, "type": brief(&ft, 800), "value": brief(&w, 1500), "context": sc.ctx()}),
+                            );
+                            if let Err(e) = coll.get(new_id).await {
+                                st.violation(
+                                    format!("{BRICK}/collection_get"),
+                                    json!({"id": new_id, "after": "accepted invalid add", "error": format!("{e:?}"), "context": sc.ctx()}),
+                                );
+                            }
+                            return;
+                        }
+                    }
+                    st.count("oracle_rejected_write_leaves_old_document");
+                    if !check_get!(id, "after rejected add") {
+                        return;
+                    }
+                }
+            }
+            _ => {
+                // grey update: no verdict on acceptance; accepted => readable and equal (data)
+                let Some((w, class)) = mutate_grey(&ft, &v, &mut g) else { continue };
+                sc.history.push(format!("grey update {id} {name} [{class}] {}", brief(&w, 300)));
+                match coll.update(id, BTreeMap::from([(name.clone(), w.clone())])).await {
+                    Err(_) => st.count("grey_rejected:collection_update"),
+                    Ok(returned) => {
+                        st.count("grey_accepted:collection_update");
+                        st.count(&format!("grey_accepted:collection_update:{class}"));
+                        let stored = returned.get_field(&name).cloned();
+                        match coll.get(id).await {
+                            Err(e) => {
+                                st.violation(
+                                    format!("{BRICK}/collection_get"),
+                                    json!({"id": id, "class": class, "field": name, "type": brief(&ft, 800),
+                                        "value": brief(&w, 1500), "error": format!("{e:?}"), "context": sc.ctx()}),
+                                );
+                                return;
+                            }
+                            Ok(d) => {
+                                let got = d.get_field(&name).cloned();
+                                let same = match (&got, &stored) {
+                                    (Some(a), Some(b)) => loose_eq(a, b),
+                                    (None, None) => true,
+                                    _ => false,
+                                };
+                                if !same {
+                                    st.violation(
+                                        "C13/read_back_changed/data/collection_update",
+                                        json!({"class": class, "field": name, "accepted": brief(&stored, 1500),
+                                            "read_back": brief(&got, 1500), "context": sc.ctx()}),
+                                    );
+                                    return;
+                                }
+                                // the model follows what storage now holds (declared variant)
+                                match got {
+                                    Some(x) => model.get_mut(&id).unwrap().insert(name.clone(), x),
+                                    None => model.get_mut(&id).unwrap().remove(&name),
+                                };
+                            }
+                        }
+                    }
+                }
+            }
+        }
+    }
+
+    // second read of everything (cache hits where the cache is on), then a cold reopen
+    for id in &ids {
+        if !check_get!(*id, "second read") {
+            return;
+        }
+    }
+    if let Err(e) = coll.flush(1).await {
+        st.inconclusive(format!("harness: flush failed: {e:?}"));
+        return;
+    }
+    drop(coll);
+    if let Err(e) = db.close().await {
+        st.inconclusive(format!("harness: close failed: {e:?}"));
+        return;
+    }
+    drop(db);
+    // reopen, in half of the cases under an upgraded schema: + optional field, - one field
+    let upgrade = rng.bool() && fields.len() >= 2;
+    let mut fields2 = fields.clone();
+    let mut removed: Option<String> = None;
+    if upgrade {
+        let i = rng.usize(fields2.len());
+        removed = Some(fields2.remove(i).0);
+        fields2.push(("later".to_string(), Ft::Option(Box::new(gen_type(rng, 2)))));
+        // declaration order in code differs from the persisted one
+        fields2.reverse();
+    }
+    let schema2 = match build_schema(&fields2, if upgrade { 2 } else { 1 }) {
+        Ok(s) => s,
+        Err(e) => return st.inconclusive(format!("harness: schema2: {e}")),
+    };
+    let other_cfg = if rng.chance(1, 4) { CONFIGS[rng.usize(4)] } else { cfg };
+    let db = match AndaDB::connect(store.clone(), db_config(other_cfg)).await {
+        Ok(d) => d,
+        Err(e) => {
+            st.violation(
+                "C13/storage/reopen_failed",
+                json!({"error": format!("{e:?}"), "context": sc.ctx()}),
+            );
+            return;
+        }
+    };
+    coll = match db.open_or_create_collection(schema2, coll_config(), async |_| Ok(())).await {
+        Ok(c) => c,
+        Err(e) => {
+            st.violation(
+                if upgrade { "C13/upgrade/permitted_upgrade_refused/collection" } else { "C13/storage/reopen_collection_failed" },
+                json!({"error": format!("{e:?}"), "upgrade": upgrade, "removed": removed, "context": sc.ctx()}),
+            );
+            return;
+        }
+    };
+    schema = coll.schema();
+    sc.history.push(format!("reopen (upgrade: {upgrade}, removed: {removed:?}, config: {})", cfg_label(other_cfg)));
+    if let Some(r) = &removed {
+        for e in model.values_mut() {
+            e.remove(r);
+        }
+        st.count("storage_upgrade_reopens");
+    }
+    for id in &ids {
+        if !check_get!(*id, "after reopen") {
+            return;
+        }
+        st.count("storage_cold_reads");
+    }
+    if upgrade {
+        // an old document is rewritten under the new schema by an update and stays readable
+        let id = ids[0];
+        let (name, ft) = fields2.iter().find(|(n, _)| n == "later").cloned().unwrap();
+        let mut g = G { rng: &mut *rng, boundary: false };
+        let v = gen_valid(&ft, &mut g, false);
+        match coll.update(id, BTreeMap::from([(name.clone(), v.clone())])).await {
+            Ok(_) => {
+                model.get_mut(&id).unwrap().insert(name, v);
+                if !check_get!(id, "after update under upgraded schema") {
+                    return;
+                }
+                st.count("storage_upgrade_rewrites");
+            }
+            Err(e) => {
+                st.violation(
+                    "C13/valid_rejected/collection_update",
+                    json!({"after": "schema upgrade", "error": format!("{e:?}"), "context": sc.ctx()}),
+                );
+                return;
+            }
+        }
+    }
+    let _ = db.close().await;
+    st.distinct(vcore::fnv_str(&format!("{label}|{}", fields.iter().map(|(_, t)| type_shape(t)).collect::<Vec<_>>().join("|"))));
+    st.sample(|| json!({"monitor": "storage", "config": label, "schema": fields.iter().map(|(n, t)| format!("{n}: {}", brief(t, 200))).collect::<Vec<_>>(),
+        "ops": sc.history.iter().take(8).map(|h| brief(h, 200)).collect::<Vec<_>>()}));
+}
+
+/// Complexity budget through a collection: at-limit documents are stored and come back,
+/// over-limit ones are refused and leave the old document in place.
+async fn storage_budget_case(case: u64, st: &mut Stats) {
+    let cfg = CONFIGS[(case % 4) as usize];
+    let label = cfg_label(cfg);
+    let ft = Ft::Array(vec![Ft::Array(vec![Ft::U64])]);
+    let schema = build_schema(&[("v".to_string(), ft.clone())], 1).unwrap();
+    let store = Arc::new(InMemory::new());
+    let Ok(db) = AndaDB::create(store, db_config(cfg)).await else {
+        return st.inconclusive("harness: db create");
+    };
+    let Ok(coll) = db.create_collection(schema, coll_config(), async |_| Ok(())).await else {
+        return st.inconclusive("harness: create_collection");
+    };
+    let schema = coll.schema();
+    let mk = |lens: &[usize]| Fv::Array(lens.iter().map(|n| Fv::Array((0..*n as u64).map(Fv::U64).collect())).collect());
+    let at_limits = [
+        ("array_len", mk(&[4096]), mk(&[4097])),
+        ("nodes", mk(&[4096, 4096, 4096, 4091]), mk(&[4096, 4096, 4096, 4092])),
+    ];
+    for (kind, at, over) in at_limits {
+        st.eval();
+        let mut doc = Document::new(schema.clone());
+        doc.set_id(0);
+        if let Err(e) = doc.set_field("v", at.clone()) {
+            st.violation("C13/valid_rejected/set_field", json!({"monitor": "storage_budget", "kind": kind, "error": format!("{e:?}")}));
+            continue;
+        }
+        let id = match coll.add(doc).await {
+            Ok(id) => id,
+            Err(e) => {
+                st.violation("C13/valid_rejected/collection_add", json!({"monitor": "storage_budget", "kind": kind, "config": label, "error": format!("{e:?}")}));
+                continue;
+            }
+        };
+        let check = |d: Result<Document, anda_db::error::DBError>, st: &mut Stats, when: &str| match d {
+            Ok(d) if d.get_field("v").map(|x| fv_eq(x, &at)).unwrap_or(false) => {
+                st.count(&format!("storage_roundtrip:{label}"));
+                st.count(&format!("storage_budget_at_limit_roundtrip:{kind}"));
+            }
+            Ok(_) => st.violation("C13/storage/get_differs_from_written", json!({"monitor": "storage_budget", "kind": kind, "when": when, "config": label})),
+            Err(e) => st.violation(format!("{BRICK}/collection_get"), json!({"monitor": "storage_budget", "kind": kind, "when": when, "config": label, "error": format!("{e:?}")})),
+        };
+        check(coll.get(id).await, st, "after add");
+        match coll.update(id, BTreeMap::from([("v".to_string(), over.clone())])).await {
+            Err(_) => {
+                st.count("invalid_rejected:collection_update");
+                st.count(&format!("storage_budget_over_limit_rejected:{kind}"));
+            }
+            Ok(_) => st.violation(
+                format!("C13/invalid_accepted/collection_update/budget_{kind}"),
+                json!({"monitor": "storage_budget", "config": label}),
+            ),
+        }
+        check(coll.get(id).await, st, "after rejected update");
+    }
+    let _ = db.close().await;
+}
+
+/// Typed structs through a collection: add_from -> get_as == T (with the assigned id), also cold.
+fn typed_storage<T: Typed>(rng: &mut Rng, st: &mut Stats, case: u64) {
+    block_on(async {
+        let cfg = CONFIGS[((case + vcore::fnv_str(T::NAME)) % 4) as usize];
+        let label = cfg_label(cfg);
+        let Ok(schema) = T::derived_schema() else { return };
+        let store = Arc::new(InMemory::new());
+        let Ok(db) = AndaDB::create(store.clone(), db_config(cfg)).await else {
+            return st.inconclusive("harness: db create");
+        };
+        let coll = match db.create_collection(schema.clone(), coll_config(), async |_| Ok(())).await {
+            Ok(c) => c,
+            Err(e) => return st.inconclusive(format!("harness: create_collection for {}: {e:?}", T::NAME)),
+        };
+        let mut written: Vec<(u64, T)> = vec![];
+        for _ in 0..3 {
+            st.eval();
+            let mut g = G { rng: &mut *rng, boundary: false };
+            let mut t = T::generate(&mut g);
+            match coll.add_from(&t).await {
+                Err(e) => {
+                    st.violation(
+                        format!("C13/typed/valid_rejected/collection_add_from/{}", T::NAME),
+                        json!({"struct": T::NAME, "value": brief(&t, 2500), "config": label, "error": format!("{e:?}")}),
+                    );
+                    return;
+                }
+                Ok(id) => {
+                    t.set_id(id);
+                    written.push((id, t));
+                }
+            }
+        }
+        let check = async |coll: &Collection, st: &mut Stats, when: &str| {
+            for (id, t) in &written {
+                match coll.get_as::<T>(*id).await {
+                    Err(e) => st.violation(
+                        format!("{BRICK}/collection_get_as"),
+                        json!({"struct": T::NAME, "value": brief(t, 2500), "when": when, "config": label, "error": format!("{e:?}")}),
+                    ),
+                    Ok(back) => {
+                        if &back != t || v_schema::typed::canon_text(&back) != v_schema::typed::canon_text(t) {
+                            st.violation(
+                                format!("C13/typed/storage_value_changed/{}", T::NAME),
+                                json!({"struct": T::NAME, "written": brief(t, 2500), "read": brief(&back, 2500), "when": when, "config": label}),
+                            );
+                        } else {
+                            st.count("typed_storage_roundtrips");
+                            st.count(&format!("storage_roundtrip:{label}"));
+                        }
+                    }
+                }
+            }
+        };
+        check(&coll, st, "warm").await;
+        let _ = coll.flush(1).await;
+        drop(coll);
+        let _ = db.close().await;
+        drop(db);
+        let Ok(db) = AndaDB::connect(store, db_config(cfg)).await else {
+            return st.violation("C13/storage/reopen_failed", json!({"struct": T::NAME}));
+        };
+        match db.open_or_create_collection(schema, coll_config(), async |_| Ok(())).await {
+            Ok(coll) => check(&coll, st, "cold").await,
+            Err(e) => st.violation("C13/storage/reopen_collection_failed", json!({"struct": T::NAME, "error": format!("{e:?}")})),
+        }
+        let _ = db.close().await;
+    })
+}
+
+fn typed_case(case: u64, rng: &mut Rng, st: &mut Stats, n: usize, with_storage: bool) {
+    fn one<T: Typed>(rng: &mut Rng, st: &mut Stats, n: usize, with_storage: bool, case: u64) {
+        typed_roundtrip::<T>(rng, st, n);
+        if with_storage {
+            typed_storage::<T>(rng, st, case);
+        }
+    }
+    v_schema::for_each_typed!(one, rng, st, n, with_storage, case);
+}
+
+// ---------------------------------------------------------------------------------------------
+// Miri (thorough tier): the schema-only oracles on a small seeded workload
+
+fn miri_run(run: &mut Run) {
+    let budget = run.time_left().as_secs().clamp(60, 420);
+    let n = run.arg_u64("miri_values", 350);
+    let mut st = Stats::default();
+    let out = std::process::Command::new("timeout")
+        .arg(format!("{budget}"))
+        .args(["cargo", "+nightly", "miri", "run", "--offline", "-q", "-p", "v_schema", "--bin", "c13_miri", "--"])
+        .arg(format!("{}", run.seed))
+        .arg(format!("{n}"))
+        .current_dir(vcore::run::verif_root().join("harness"))
+        .env("MIRIFLAGS", "-Zmiri-disable-isolation")
+        .env("CARGO_TARGET_DIR", vcore::run::verif_root().join("harness").join("target-miri"))
+        .output();
+    match out {
+        Err(e) => st.inconclusive(format!("miri could not be started: {e}")),
+        Ok(o) => {
+            let stdout = String::from_utf8_lossy(&o.stdout).to_string();
+            let stderr = String::from_utf8_lossy(&o.stderr).to_string();
+            let tail = |s: &str| s.lines().rev().take(40).collect::<Vec<_>>().into_iter().rev().collect::<Vec<_>>().join("\n");
+            if stderr.contains("Undefined Behavior") {
+                st.violation("C13/miri/undefined_behavior", json!({"report": tail(&stderr)}));
+            } else if let Some(line) = stdout.lines().find(|l| l.starts_with("MIRI-C13 done")) {
+                let num = |k: &str| {
+                    line.split_whitespace().find_map(|w| w.strip_prefix(k).and_then(|v| v.parse::<u64>().ok())).unwrap_or(0)
+                };
+                st.add("miri_values_checked", num("values="));
+                st.add("miri_oracle_violations", num("violations="));
+                if num("violations=") > 0 {
+                    st.violation("C13/miri/oracle_violation_under_miri", json!({"stdout": tail(&stdout)}));
+                }
+            } else {
+                st.inconclusive(format!(
+                    "miri run did not complete (exit {:?}): {}",
+                    o.status.code(),
+                    tail(&stderr).chars().take(600).collect::<String>()
+                ));
+            }
+        }
+    }
+    run.stats.merge(st);
+}
+
 fn main() {
-    println!("INCONCLUSIVE property=C13 monitor not built yet");
-    std::process::exit(2);
+    let mut run = Run::from_args(
+        "C13",
+        "exploration",
+        "a case is a (FieldType, FieldValue) pair run through every write path and the stored form; \
+         distinct by (type shape hash, value shape hash[, mutation class]); non-trivial = value nesting \
+         depth >= 2, or a boundary numeric/size, or an invalid mutation; typed cases distinct by \
+         (struct, value) with a boundary value; storage cases by (config, schema shape); upgrade chains by operation log",
+    );
+    run.assume("valid / invalid are decided from the documented rules (doc comments of field.rs / schema.rs, docs/anda_db_schema.md); read-back grey zones (U64 for I64, F64 for F32, bit-pattern arrays for Vector, anything for Json, untyped positions) are never judged, only 'accepted on write => readable and equal as data'");
+    run.assume("an undeclared key of a keyed map in STORED bytes is documented to be pruned on read (removed nested field); write paths must refuse it");
+    run.assume("JSON null directly under Option and Some(None) are plain-serde-indistinguishable from None and are not generated as valid");
+    let t = run.tier;
+    if run.wants("pairs") {
+        run.parallel("pairs", t.pick(24_000, 3_000_000), 0.45, pair_case);
+    }
+    if run.wants("budget") {
+        run.parallel("budget", t.pick(70, 2_100), 0.2, budget_case);
+    }
+    if run.wants("typed") {
+        run.parallel("typed", t.pick(48, 4_000), 0.3, |c, rng, st| typed_case(c, rng, st, t.pick(6, 12), c % 4 == 0));
+    }
+    if run.wants("upgrade") {
+        run.parallel("upgrade", t.pick(1_500, 150_000), 0.35, |c, rng, st| upgrade_case(c, rng, st, false));
+        // own section: its (candidate-defect) alarm must not cut the exploration above short
+        run.parallel("upgrade_nested_retype", t.pick(150, 3_000), 0.2, |c, rng, st| upgrade_case(c, rng, st, true));
+    }
+    if run.wants("storage") {
+        run.parallel("storage", t.pick(1_600, 120_000), 0.6, |c, rng, st| block_on(storage_case(c, rng, st)));
+        run.parallel("storage_budget", t.pick(8, 200), 0.5, |c, _rng, st| block_on(storage_budget_case(c, st)));
+    }
+    if t == vcore::Tier::Thorough && run.wants("miri") {
+        miri_run(&mut run);
+        run.floor("miri_values_checked", 100);
+    }
+
+    // evidence floors
+    for c in [
+        "Bool", "I64", "U64", "F64", "F32", "Bytes", "Text", "Json", "Vector", "Option", "ArrayUntyped",
+        "ArrayHomogeneous", "ArrayTuple", "MapUntyped", "MapWildcardText", "MapWildcardI64", "MapWildcardBytes", "MapKeyed",
+    ] {
+        run.floor(&format!("ctor:{c}"), 200);
+        run.floor(&format!("storage_ctor:{c}"), 10);
+    }
+    for c in [
+        "wrong_family", "null_non_option", "nan", "f64_out_of_f32_range", "negative_for_u64", "u64_overflow_i64",
+        "vector_bits_overflow", "tuple_arity_minus", "tuple_arity_plus", "wildcard_key_variant", "keyed_map_extra_key",
+        "keyed_map_missing_key",
+    ] {
+        run.floor(&format!("invalid:{c}"), 40);
+    }
+    for k in ["array_len", "map_entries", "nodes", "depth", "json_array_len", "json_object_entries", "untyped_array_len"] {
+        run.floor(&format!("budget_at_limit_accepted:{k}"), 3);
+        run.floor(&format!("budget_over_limit_rejected:{k}"), 3);
+    }
+    for d in 1..=4 {
+        run.floor(&format!("invalid_depth:{d}"), 30);
+    }
+    run.floor("pairs_valid", 5_000);
+    run.floor("pairs_invalid", 4_000);
+    run.floor("pairs_grey", 1_000);
+    run.floor("grey_accepted:set_field", 300);
+    run.floor("grey_accepted:try_from", 300);
+    run.floor("grey_accepted:stored_bytes", 300);
+    run.floor("invalid_rejected:set_field", 4_000);
+    run.floor("invalid_rejected:try_from", 4_000);
+    run.floor("oracle_accept_write_implies_accept_read", 10_000);
+    run.floor("extra_key_pruned_on_read", 20);
+    run.floor("typed_roundtrips", 2_000);
+    run.floor_set("typed_structs_roundtripped", v_schema::typed::N_TYPED);
+    run.floor("oracle_derived_schema_matches_documented_table", v_schema::typed::N_TYPED as u64);
+    run.floor("typed_storage_roundtrips", 200);
+    for c in CONFIGS {
+        run.floor(&format!("storage_roundtrip:{}", cfg_label(c)), 500);
+    }
+    run.floor("storage_updates", 500);
+    run.floor("storage_cold_reads", 1_000);
+    run.floor("invalid_rejected:collection_update", 300);
+    run.floor("invalid_rejected:collection_add", 200);
+    run.floor("oracle_rejected_write_leaves_old_document", 500);
+    run.floor("grey_accepted:collection_update", 50);
+    run.floor("storage_upgrade_reopens", 100);
+    run.floor("storage_budget_at_limit_roundtrip:nodes", 4);
+    run.floor("storage_budget_over_limit_rejected:array_len", 4);
+    run.floor("upgrade_chains", 500);
+    run.floor("upgrades_applied", 1_500);
+    run.floor("upgrade_old_doc_reads", 5_000);
+    run.floor("oracle_upgrade_surviving_field_equal", 5_000);
+    run.floor("oracle_upgrade_later_field_absent", 1_000);
+    for op in [
+        "add_optional_field", "remove_field", "readd_removed_name", "nested_add_optional_key", "nested_remove_key",
+        "nested_readd_key_same_type", "nested_readd_key_other_type",
+    ] {
+        run.floor(&format!("upgrade_op:{op}"), 30);
+    }
+    for k in [
+        "type_change", "optionality_change", "new_required_field", "version_not_greater", "unique_flag_flip",
+        "nested_key_type_change", "nested_new_required_key", "array_arity_change", "wildcard_to_keyed",
+    ] {
+        run.floor(&format!("forbidden_upgrade:{k}"), 10);
+    }
+    let _ = (FieldEntry::new("x".into(), Ft::Bool), FieldKey::I64(0));
+    run.finish();
 }
